@@ -32,7 +32,9 @@ _line = st.one_of(
     # characters str.splitlines() treats as line boundaries (the writer's lines are separated by LF only)
     st.sampled_from(["form\x0cfeed", "nel\x85x", "ls\u2028x", "fs\x1cgs\x1dx", "lone\rcr", "vt\x0bx"]),
 )
-_text = st.lists(_line, min_size=1, max_size=5).map("\n".join)
+LONG_TEXT = " ".join(f"word{i}" for i in range(60)) + "\nsecond line of the long paragraph"       # > 256 characters
+_text = st.one_of(st.lists(_line, min_size=1, max_size=5).map("\n".join), st.lists(_line, min_size=1, max_size=5).map("\n".join),
+                  st.lists(_line, min_size=1, max_size=5).map("\n".join), st.just(LONG_TEXT))
 
 _tgt = st.sampled_from([0, 0, 0, 0, 1, 1, 2, 3, 5, 8, 13, 21, 34, 50])
 
@@ -65,12 +67,19 @@ _deep_prefix = st.builds(
                               ["text", 1, "a\n  b"], ["option", 1, "o", ""], ["section", 0, "S"]]), max_size=3))
 
 
+# a chain of nested sections as deep as the header list allows (each 'section' targets the most recent writer)
+_section_chain = st.builds(lambda n, tail: [["section", 0, f"S{i}"] for i in range(n)] + [["title", 0, "Deep title"], ["text", 0, "deep"]] + tail,
+                           st.integers(9, 13), st.lists(_op, max_size=4))
+
+
 def strategy(tier):
     nmax = 25 if tier == "quick" else 40
     ops = st.lists(_op, min_size=1, max_size=nmax)
-    ops = st.one_of(ops, st.builds(lambda a, b, c: a + b + c, st.lists(_op, max_size=4), _deep_prefix, ops))
+    ops = st.one_of(ops, ops, ops, st.builds(lambda a, b, c: a + b + c, st.lists(_op, max_size=4), _deep_prefix, ops),
+                    st.builds(lambda a, b, c: a + b + c, st.lists(_op, max_size=4), _deep_prefix, ops), _section_chain)
     return st.fixed_dictionaries({
-        "headers": st.lists(st.sampled_from(HEADER_POOL), min_size=1, max_size=10, unique=True),
+        "headers": st.one_of(st.lists(st.sampled_from(HEADER_POOL), min_size=1, max_size=10, unique=True),
+                             st.lists(st.sampled_from(HEADER_POOL), min_size=11, max_size=16, unique=True)),
         "title": _word,
         "ops": ops,
         # the configured header characters as a list, a tuple (the type of RSTSettings' own default) or a string
